@@ -30,7 +30,7 @@ RULE = (
     "transported from a domain that differs from the target, or >=2 ctf-factors; distinct = distinct input."
 )
 ASSUMPTIONS = [
-    "graphs bounded to 4 nodes, events to 3 items, cardinality 2; two families per case",
+    "graphs bounded to 4 nodes (thorough: 5), events to 3 items, cardinality 2; two families per case",
     "reading rule of DESIGN.md 3.3; inputs in open known-finding regions are set aside and counted",
     "a domain's distribution P^k is the observational joint of its own (policy-modified) model",
 ]
@@ -76,10 +76,11 @@ def _case(draw, gs, plus, reflexive=False):
 
 
 def strategy(tier):
+    mx = 4 if tier == "quick" else 5
     return st.one_of(
-        _case(gen.admgs(2, 4), False),
-        _case(gen.admgs(2, 4, bi_densities=(0, 2), di_densities=(4, 6, 8)), False),
-        _case(gen.admgs(2, 4), True, True),
+        _case(gen.admgs(2, mx), False),
+        _case(gen.admgs(2, mx, bi_densities=(0, 2), di_densities=(4, 6, 8)), False),
+        _case(gen.admgs(2, mx), True, True),
         _case(gen.embedded_admgs(0), False),
         _case(gen.embedded_admgs(1), False),
     )
@@ -98,11 +99,9 @@ def build_domain(g, d):
     from y0.graph import NxMixedGraph
 
     dg = domain_graph_dict(g, d)
-    graph = NxMixedGraph.from_edges(
-        nodes=[V(n) for n in dg["nodes"]] + [V("T_" + n) for n in d["T"]],
-        directed=[(V(u), V(v)) for u, v in dg["di"]] + [(V("T_" + n), V(n)) for n in d["T"]],
-        undirected=[(V(u), V(v)) for u, v in dg["bi"]],
-    )
+    # built through build_graph, so a third of the selection diagrams are graph objects grown step by step with
+    # read-only queries in between (a diagram edited between two queries is an ordinary use)
+    graph = build_graph({"nodes": list(dg["nodes"]) + ["T_" + n for n in d["T"]], "di": [list(e) for e in dg["di"]] + [["T_" + n, n] for n in d["T"]], "bi": [list(e) for e in dg["bi"]]})
     pop = TARGET_DOMAIN if d["pop"] == "pi*" else Variable(d["pop"])
     ordering = None
     if d["topo"] in ("lex", "rev"):
@@ -251,9 +250,17 @@ def check(case, ignore_regions=False) -> Outcome:
     for it in ret_items:
         if it["val"] is not None:
             marks.setdefault(it["v"], set()).add(bool(it["val"]))
+    # names that occur only as subscripts read the subscript's value: first the RETURNED event's subscripts (the
+    # expression speaks about that event); a name the returned event no longer mentions falls back to the query's
+    # own subscripts (all of its marks, read leniently)
+    outcome_names = set(marks)
+    for it in ret_items:
+        for n, s in it["do"]:
+            if n not in outcome_names:
+                marks.setdefault(n, set()).add(bool(s))
     for it in items:
         for n, s in it["do"]:
-            if n not in marks:
+            if n not in outcome_names and n not in {m for r in ret_items for m, _ in r["do"]}:
                 marks.setdefault(n, set()).add(bool(s))
     rnames = sorted(marks)
     if any(len(v) > 1 for v in marks.values()):
